@@ -135,7 +135,8 @@ func (s *Set) GetTemplate(templatePath string) (t *Template, err error) {
 	return s.getSiblingTemplate(templatePath, "/", true)
 }
 
-func (s *Set) getSiblingTemplate(templatePath, siblingPath string, cacheAfterParsing bool) (t *Template, err error) {
+// loading lists the templates whose extends/import clauses led to this lookup (outermost first).
+func (s *Set) getSiblingTemplate(templatePath, siblingPath string, cacheAfterParsing bool, loading ...string) (t *Template, err error) {
 	templatePath = filepath.ToSlash(templatePath)
 	siblingPath = filepath.ToSlash(siblingPath)
 	if !path.IsAbs(templatePath) {
@@ -144,11 +145,11 @@ func (s *Set) getSiblingTemplate(templatePath, siblingPath string, cacheAfterPar
 	} else {
 		templatePath = path.Clean(templatePath)
 	}
-	return s.getTemplate(templatePath, cacheAfterParsing)
+	return s.getTemplate(templatePath, cacheAfterParsing, loading...)
 }
 
 // same as GetTemplate, but doesn't cache a template when found through the loader.
-func (s *Set) getTemplate(templatePath string, cacheAfterParsing bool) (t *Template, err error) {
+func (s *Set) getTemplate(templatePath string, cacheAfterParsing bool, loading ...string) (t *Template, err error) {
 	if !s.developmentMode {
 		t, exact, found := s.getTemplateFromCache(templatePath)
 		if found {
@@ -162,7 +163,7 @@ func (s *Set) getTemplate(templatePath string, cacheAfterParsing bool) (t *Templ
 	}
 
 	verifYield("getTemplate:miss")
-	t, err = s.getTemplateFromLoader(templatePath, cacheAfterParsing)
+	t, err = s.getTemplateFromLoader(templatePath, cacheAfterParsing, loading...)
 	if err == nil && cacheAfterParsing && !s.developmentMode {
 		verifYield("getTemplate:put")
 		s.cache.Put(templatePath, t)
@@ -188,18 +189,24 @@ func (s *Set) getTemplateFromCache(templatePath string) (t *Template, exact, ok 
 	return nil, false, false
 }
 
-func (s *Set) getTemplateFromLoader(templatePath string, cacheAfterParsing bool) (t *Template, err error) {
+func (s *Set) getTemplateFromLoader(templatePath string, cacheAfterParsing bool, loading ...string) (t *Template, err error) {
 	// check path with all possible extensions in loader
 	for _, extension := range s.extensions {
 		canonicalPath := templatePath + extension
 		if found := s.loader.Exists(canonicalPath); found {
-			return s.loadFromFile(canonicalPath, cacheAfterParsing)
+			return s.loadFromFile(canonicalPath, cacheAfterParsing, loading...)
 		}
 	}
 	return nil, fmt.Errorf("template %s could not be found", templatePath)
 }
 
-func (s *Set) loadFromFile(templatePath string, cacheAfterParsing bool) (template *Template, err error) {
+func (s *Set) loadFromFile(templatePath string, cacheAfterParsing bool, loading ...string) (template *Template, err error) {
+	// a template that (indirectly) extends or imports itself would be loaded again and again
+	for _, name := range loading {
+		if name == templatePath {
+			return nil, fmt.Errorf("template %s extends or imports itself (through %v)", templatePath, loading)
+		}
+	}
 	f, err := s.loader.Open(templatePath)
 	if err != nil {
 		return nil, err
@@ -209,7 +216,8 @@ func (s *Set) loadFromFile(templatePath string, cacheAfterParsing bool) (templat
 	if err != nil {
 		return nil, err
 	}
-	return s.parse(templatePath, string(content), cacheAfterParsing)
+	// what this template extends or imports is looked up on behalf of everything in loading and of itself
+	return s.parse(templatePath, string(content), cacheAfterParsing, append(loading[:len(loading):len(loading)], templatePath)...)
 }
 
 // Parse parses `contents` as if it were located at `templatePath`, but won't put the result into the cache.
